@@ -48,6 +48,7 @@ func HarnessCrash() {
 	armOpen := vrt.Param("armopen", 0)
 	maxData := vrt.Param("maxdata", 1)
 	B := uint64(vrt.Param("B", 1))
+	audit := vrt.Param("audit", 0)
 
 	w := sym.NewWorld()
 	fs := sym.NewFS(w)
@@ -151,6 +152,14 @@ func HarnessCrash() {
 					vrt.Quiesce()
 				}
 			}
+			if audit == 1 {
+				// C09: what this incarnation - which may have started from a recovered directory -
+				// has written is a README-conformant image (run the background rotation first)
+				w.Armed = false
+				vrt.Quiesce()
+				auditSegments("C09.audit", fs, meta, m)
+				w.Armed = true
+			}
 			w.CrashNow("after-last-op")
 		})
 		if !w.Crashed {
@@ -245,6 +254,9 @@ func HarnessCrash() {
 			// sealed segments are now read through their on-disk index
 			probe("C01-C02-C03-C04.after-reopen", e.L, m, vrt.U64("probe2"))
 		}
+	}
+	if audit == 1 {
+		auditSegments("C09.audit", fs, meta, m)
 	}
 	vrt.Reach("crash-verified")
 }
